@@ -179,9 +179,10 @@ func cmdVerify(args []string) {
 	repo := fs.String("repo", "/repo", "repository")
 	specDir := fs.String("spec-dir", "", "override directory with contract files (development)")
 	out := fs.String("out", "/verif/out/dev", "output directory for SMT files")
-	timeout := fs.Int("timeout", 10000, "per-solver timeout (ms)")
+	timeout := fs.Int("timeout", 5000, "per-solver timeout (ms)")
 	verbose := fs.Bool("v", false, "verbose")
 	all := fs.Bool("all-solvers", false, "wait for all solvers and require agreement")
+	fs.BoolVar(&diagMode, "diag", false, "on unknown, look for a candidate counterexample without quantified assumptions")
 	only := fs.String("func", "", "comma-separated function names (default: all under contract in the packages)")
 	fs.Parse(args)
 	pats := fs.Args()
